@@ -206,7 +206,8 @@ def cases(tier, rng):
     yield 'md6.V par 256 0 1 0 4096 0', 'V.out'
 
     # --- whole digests: boundary-directed sizes x every mode
-    sizes = boundary_sizes(17 if quick else 65)
+    sizes = boundary_sizes(33 if quick else 65)
+    if quick: sizes = sorted(set(sizes) | {512 * 64 - 1, 512 * 64, 512 * 64 + 1, 384 * 86})      # 4 and 5 tree levels
     for n in sizes:
         base = rb(rng, n)
         for L in LS:
@@ -262,7 +263,7 @@ def cases(tier, rng):
             yield 'md6.par 256 64 1 x 1 %s %d' % (hx(base), 8 * n - 3), 'par'
             yield 'md6.seq 256 0 1 x %s %d' % (hx(base), 8 * n - 5), 'seq'
     # seeded random
-    for _ in range(150 if quick else 3000):
+    for _ in range(400 if quick else 3000):
         d = rng.choice(DS + [rng.randrange(1, 513)])
         L = rng.choice(LS + [rng.randrange(0, 6)])
         key = rb(rng, rng.choice(KEYLENS + [rng.randrange(0, 65)]))
@@ -309,12 +310,18 @@ def shrink(line):
 
 
 LEVEL_TEXT = ('Lean 4 theorems about Model.Md6 (the hand-written mirror of class MD6 in crysp/md.py, after three fix: commits) against '
-              'Spec.Md6 (the MD6 report on BitVec 64 words and byte lists): constants, compression function for every round count, control word '
-              'and node id layouts, PAR / SEQ levels, level loop and final d bits; the model is tied to the current source by the translator '
-              '(Q, shift tables, taps, S constants, default round counts for every d) and by a boundary-directed correspondence stream that '
-              'runs every line through the real code, the model and the executable Spec.')
+              'Spec.Md6 (the MD6 report on BitVec 64 words and byte lists), all at full strength: constants (Q, shift tables, taps, S0/S*, default '
+              'rounds for every d) Gen = Spec; f_refines for every round count r >= 1; V_layout / V_layout_seq / U_layout for every field value; '
+              'par_level_refines, seq_refines; md6_refines end-to-end for every d <= 512, L <= 64, key <= 64 bytes, 1 <= r < 4096 (and the default '
+              'round count), every message shorter than 2^64 bits and every bit length <= 8|M| (the level loop terminates, the call returns); '
+              'digest_length = ceil(d/8) with zero unused bits; refusal of a bit length beyond the message; totality of the Spec\'s own level loop. '
+              'The model is tied to the current source by the translator (Q, shift tables, taps, S constants, default round counts for every d) and '
+              'by a boundary-directed correspondence stream that runs every line through the real code, the model and the executable Spec.')
 LEVEL_NOTE = ('Trusted: Lean kernel; axioms ⊆ {propext, Classical.choice, Quot.sound}; extract.py/runcheck.py/props/C17.py; the shared models of '
-              'Bits/Padding; Spec.Md6 as a rendering of the MD6 report — ONLY the three known answers of /repo/tests/test_md.py (the report\'s '
+              'Bits/Padding (Model.Bits, Model.Padding: the proofs go through their definitions, the correspondence stream ties them to the code); '
+              'Spec.Md6 as a rendering of the MD6 report — ONLY the three known answers of /repo/tests/test_md.py (the report\'s '
               'examples) and the report\'s "abc" d=256 digest validate the Spec; there is no independent executable MD6 in the image. '
-              'Q is additionally proved to be the fractional part of sqrt(6). Theorem list: evidence/C17.json coverage.theorems.')
+              'Q is additionally proved to be the first 960 bits of the fractional part of sqrt(6). Hypotheses of md6_refines beyond the property text: '
+              'bytes are < 256, the message is shorter than 2^64 bits (the report\'s bound; keeps the node index in its 56-bit field), r < 4096 (12-bit field). '
+              'No _partial theorem. Theorem list: evidence/C17.json coverage.theorems.')
 TECHNIQUE = 'Lean 4 proof (fold simulation, testBit extensionality, kernel evaluation of constants) + correspondence check'
